@@ -6,6 +6,7 @@ mkdir -p /verif/logs
 OUT=/verif/logs/sweep_${TIER}_s${SEED}.txt
 : > $OUT
 for i in $IDS; do
+  while [ -e /verif/.seedlock ]; do sleep 5; done
   t0=$(date +%s)
   VERIF_SEED=$SEED /verif/check $i $TIER > /verif/logs/${i}_${TIER}_s${SEED}.log 2>&1; rc=$?
   t1=$(date +%s)
